@@ -12,15 +12,18 @@
 (* A pure decision: the TLA+ contributes the exhaustive case grid and the   *)
 (* oracle, not interleavings.                                               *)
 (***************************************************************************)
-EXTENDS Naturals, Sequences, FiniteSets, TLC, Json, SequencesExt
+EXTENDS Integers, Sequences, FiniteSets, TLC, Json, SequencesExt
 
 CONSTANTS Types, Periods, AgeOffsets, BigAges, Subs, SimDepth
 VARIABLES evlog
 
-Ages(p) == {a \in {p + o - 2 : o \in AgeOffsets} : TRUE} \cup {0} \cup {10 * p} \cup BigAges   \* offsets are shifted by 2: 1 = p-1, 2 = p, 3 = p+1
+\* negative ages: the newest trusted state carries a time AHEAD of this chain's block time (the counterparty's clock runs
+\* ahead, within the accepted drift, or this chain's blocks are slow): such a client is inside its trusting period
+AheadAges == {0 - 1, 0 - 5, 0 - 100}
+Ages(p) == {a \in {p + o - 2 : o \in AgeOffsets} : TRUE} \cup {0} \cup {10 * p} \cup BigAges \cup AheadAges   \* offsets are shifted by 2: 1 = p-1, 2 = p, 3 = p+1
 \* lag: how long after its own timestamp the newest trusted state was stored on this chain (a late relayer); the
 \* statement measures the age of the trusted state itself, so the answer must not depend on it
-Lags(a) == {0, a}
+Lags(a) == IF a > 0 THEN {0, a} ELSE {0}
 AllCases == UNION {UNION {{[act |-> "Status", c |-> "A", t |-> t, p |-> p, age |-> a, sub |-> s, lag |-> g] :
                              t \in Types, s \in Subs, g \in Lags(a)} : a \in Ages(p)} : p \in Periods}
 
